@@ -427,6 +427,73 @@ const FAULTS: &[(&str, &str, bool)] = &[
     ("malformed-literal", "{{ 1.2.3.4 | }}", false),
     ("assign-without-value", "{% assign a = %}", false),
     ("for-without-in", "{% for i a %}{% endfor %}", false),
+    // missing / doubled / trailing pieces in the argument lists of the library's tags and blocks, and
+    // faults behind an `else` (each confirmed rejected by the unchanged parser; the lenient spellings
+    // `{% cycle 1, %}`, `{% render 'p', %}` and `{% else x %}` are accepted and are not listed)
+    ("cycle-group-without-values", "{% cycle g: %}", false),
+    ("cycle-quoted-group-without-values", "{% cycle 'g': %}", false),
+    ("cycle-without-values", "{% cycle %}", false),
+    ("cycle-leading-comma", "{% cycle , 1 %}", false),
+    ("cycle-double-comma", "{% cycle 1,, 2 %}", false),
+    ("case-without-target", "{% case %}{% when 1 %}{% endcase %}", false),
+    ("when-without-value", "{% case a %}{% when %}{% endcase %}", false),
+    ("when-trailing-comma", "{% case a %}{% when 1, %}{% endcase %}", false),
+    ("when-trailing-or", "{% case a %}{% when 1 or %}{% endcase %}", false),
+    ("if-without-condition", "{% if %}{% endif %}", false),
+    ("unless-without-condition", "{% unless %}{% endunless %}", false),
+    ("elsif-without-condition", "{% if a %}{% elsif %}{% endif %}", false),
+    ("if-dangling-operator", "{% if a == %}{% endif %}", false),
+    ("if-dangling-and", "{% if a and %}{% endif %}", false),
+    ("if-leading-or", "{% if or a %}{% endif %}", false),
+    ("if-two-values", "{% if a b %}{% endif %}", false),
+    ("capture-without-name", "{% capture %}{% endcapture %}", false),
+    ("capture-two-names", "{% capture a b %}{% endcapture %}", false),
+    ("increment-without-name", "{% increment %}", false),
+    ("decrement-without-name", "{% decrement %}", false),
+    ("increment-two-names", "{% increment a b %}", false),
+    ("include-without-name", "{% include %}", false),
+    ("render-without-name", "{% render %}", false),
+    ("include-dangling-comma", "{% include 'p', %}", false),
+    ("render-key-without-value", "{% render 'p', a: %}", false),
+    ("include-key-without-value", "{% include 'p' a: %}", false),
+    ("render-with-without-value", "{% render 'p' with %}", false),
+    ("render-for-without-value", "{% render 'p' for %}", false),
+    ("render-as-without-alias", "{% render 'p' with a as %}", false),
+    ("for-without-collection", "{% for i in %}{% endfor %}", false),
+    ("for-without-variable", "{% for in a %}{% endfor %}", false),
+    ("for-limit-without-value", "{% for i in a limit: %}{% endfor %}", false),
+    ("for-offset-without-value", "{% for i in a offset: %}{% endfor %}", false),
+    ("for-unknown-parameter", "{% for i in a zzz: 1 %}{% endfor %}", false),
+    ("for-open-range", "{% for i in (1..) %}{% endfor %}", false),
+    ("tablerow-cols-without-value", "{% tablerow i in a cols: %}{% endtablerow %}", false),
+    ("tablerow-without-collection", "{% tablerow i in %}{% endtablerow %}", false),
+    ("assign-trailing-token", "{% assign a = 1 2 %}", false),
+    ("assign-without-name", "{% assign = 1 %}", false),
+    ("assign-without-equals", "{% assign a 1 %}", false),
+    ("endif-with-argument", "{% if a %}{% endif x %}", false),
+    ("endfor-with-argument", "{% for i in a %}{% endfor x %}", false),
+    ("double-else", "{% if a %}{% else %}{% else %}{% endif %}", false),
+    ("double-else-unless", "{% unless a %}{% else %}{% else %}{% endunless %}", false),
+    ("elsif-after-else", "{% if a %}{% else %}{% elsif b %}{% endif %}", false),
+    ("unless-else-unknown-tag", "{% unless a %}{% else %}{% nosuchtag %}{% endunless %}", false),
+    ("unless-else-unknown-filter", "{% unless a %}{% else %}{{ a | nosuchfilter }}{% endunless %}", false),
+    ("case-else-unknown-tag", "{% case a %}{% when 1 %}{% else %}{% nosuchtag %}{% endcase %}", false),
+    ("for-else-unknown-tag", "{% for i in a %}{% else %}{% nosuchtag %}{% endfor %}", false),
+    ("if-else-unknown-tag", "{% if a %}{% else %}{% nosuchtag %}{% endif %}", false),
+    ("when-after-else", "{% case a %}{% else %}{% when 1 %}{% endcase %}", false),
+    ("break-with-argument", "{% break x %}", false),
+    ("continue-with-argument", "{% continue x %}", false),
+    ("ifchanged-with-argument", "{% ifchanged x %}{% endifchanged %}", false),
+    ("raw-with-argument", "{% raw x %}{% endraw %}", false),
+    ("comment-with-argument", "{% comment x %}{% endcomment %}", false),
+    ("filter-dangling-comma", "{{ a | append: 'x', }}", false),
+    ("filter-dangling-colon", "{{ a | append: }}", false),
+    ("filter-dangling-pipe", "{{ a | }}", false),
+    ("empty-output", "{{ }}", false),
+    ("empty-tag", "{% %}", false),
+    ("index-unclosed", "{{ a[1 }}", false),
+    ("index-empty", "{{ a[] }}", false),
+    ("trailing-dot", "{{ a. }}", false),
 ];
 
 fn rejection(ctx: &mut Ctx, ps: &Parsers) {
